@@ -840,6 +840,25 @@ func registerLibIntrinsics() {
 			return SymBytes{s: concatStr(dst, s)}, true
 		}
 	}
+	I["strconv.Quote"] = func(in *Interp, fr *frame, args []Value) (Value, bool) {
+		if c, ok := strArg(args[0]).Concrete(); ok {
+			return CStr(strconv.Quote(c)), true
+		}
+		return in.sprintf("%q", []Value{in.ifaceOfStr(strArg(args[0]))}), true
+	}
+	I["strconv.AppendQuote"] = func(in *Interp, fr *frame, args []Value) (Value, bool) {
+		dst, ok := in.sliceToSym(fr, args[0])
+		if !ok {
+			return nil, false
+		}
+		var q Str
+		if c, ok := strArg(args[1]).Concrete(); ok {
+			q = CStr(strconv.Quote(c))
+		} else {
+			q = in.sprintf("%q", []Value{in.ifaceOfStr(strArg(args[1]))})
+		}
+		return SymBytes{s: concatStr(dst, q)}, true
+	}
 	I["strconv.AppendUint"] = appendNum(false)
 	I["strconv.AppendInt"] = appendNum(true)
 	I["strconv.Itoa"] = func(in *Interp, fr *frame, args []Value) (Value, bool) {
@@ -1608,3 +1627,6 @@ func (in *Interp) externalGlobalByName(name string) Value {
 	in.extGlobals[name] = v
 	return v
 }
+
+// ifaceOfStr boxes a string value as interface{} (for the formatting helpers).
+func (in *Interp) ifaceOfStr(s Str) Value { return Iface{T: types.Typ[types.String], V: s} }
